@@ -101,6 +101,8 @@ func decorate(name string, d mtDeco) string {
 		s += "\t;a=b"
 	case "rfc2231":
 		s += "; charset*=utf-8''%E9"
+	case "long":
+		s += "; comment=" + strings.Repeat("a", 300)
 	}
 	return wsOf(d.L) + s + wsOf(d.T)
 }
@@ -170,6 +172,26 @@ func mtqueriesMain(args []string) int {
 				}
 			} else {
 				tree[q.Node-1].M.Extend(det, name, ".late")
+			}
+			if strings.Contains(q.Name, "alias") && q.Exp {
+				// two formats whose alias lists are windows of ONE caller-owned array with spare capacity:
+				// using the first format must not disturb the names of the second
+				arena := make([]string, 0, 16)
+				arena = append(arena, name+"-w1a", name+"-w1b")
+				tree[q.Node-1].M.Extend(det, name+"-w1", ".w1", arena[0:2]...)
+				arena = append(arena, name+"-w2a", name+"-w2b")
+				tree[q.Node-1].M.Extend(det, name+"-w2", ".w2", arena[2:4]...)
+				n1 := mimetype.Lookup(name + "-w1")
+				if n1 != nil {
+					_ = n1.Is(name + "-w1a")
+					_ = n1.Is("no/match")
+				}
+				for _, a := range []string{name + "-w2a", name + "-w2b"} {
+					if got := mimetype.Lookup(a); got == nil || got.String() != name+"-w2" || !got.Is(a) {
+						rep.violate(Violation{Property: "C15", Kind: "alias-window-disturbed", Text: fmt.Sprintf("Lookup(%q) after Is on a format whose alias list is the neighbouring window of the same array", a),
+							Detail: fmt.Sprintf("got %v; the caller's array now reads %q", got, arena[:cap(arena)][:6]), Key: "C15|arena|" + a})
+					}
+				}
 			}
 			if got := mimetype.Lookup(name); got == nil || !got.Is(name) {
 				rep.violate(Violation{Property: "C15", Kind: "lookup-after-extend", Text: fmt.Sprintf("Lookup(%q) after Extend under %s (looked up before: %v)", name, tree[q.Node-1].M.String(), q.Exp),
